@@ -14,6 +14,10 @@ ASSUMPTIONS = ["histories as the property quantifies them: per entry reads in an
                "the ledger (ReaderMem.v) does not model failing allocations: that half is decided on the C alone"]
 
 
+import re
+LB_RE = re.compile(r" lb=\d+")
+
+
 def build(cb):
     return cb.compile("drv_rdr_mem", [os.path.join(CDIR, "drv_rdr.c")] + cb.lib_sources() + common.alloc_sources(),
                       extra=["-I" + CDIR, "-DLHASA_VERIF"], sanitize=True, libs=common.WRAP)
@@ -70,6 +74,8 @@ def run(ctx):
         drvm = build(cb)
         mode = common.sh([drvm, "--probe"])[1].strip()
         lines, n_ex = corpus_cases(ctx, rnd), 0
+        # minimised failures of earlier runs, with their failing request: run first
+        kept = [l.strip() for l in open(os.path.join(common.VERIF, "corpus", "C20", "ext_alloc_silent.txt")) if l.startswith("rdr ")]
         try:
             pool = T.Pool(cb, [drvm], rnd)
             gl, n_ex = cases(ctx, rnd, pool)
@@ -108,7 +114,12 @@ def run(ctx):
         # ------------------------------------------------------------ 2. every allocation request fails in turn
         cands = sorted(zip(lines, cout), key=lambda lc: (len(lc[0]) > 9000, hashlib.md5(lc[0].encode()).hexdigest()))
         cands = cands[:(120 if ctx.quick else 2500)]
-        inj = []
+        inj = list(kept)
+        for l in kept:
+            t = l.split()
+            base_l = " ".join(t[:3] + ["0"] + t[4:])
+            if base_l not in dict(cands):
+                cands.append((base_l, common.run_lines_parallel([drvm], [base_l])[0]))
         for l, c in cands:
             ca = T.ALLOC_RE.search(c)
             if not ca:
@@ -117,6 +128,8 @@ def run(ctx):
             for k in range(1, int(ca.group(1)) + 1):
                 inj.append(" ".join(t[:3] + [str(k)] + t[4:]))
         iout = common.run_lines_parallel([drvm], inj)
+        base_of = dict(cands)
+        silent = []
         reached = 0
         for l, c in zip(inj, iout):
             ca = T.ALLOC_RE.search(c)
@@ -130,6 +143,29 @@ def run(ctx):
                              "sig": "failinj-leak"})
             elif ca.group(4) != "0":
                 reached += 1
+                # "the affected call reports failure or end-of-archive": the first call whose result differs from the
+                # fault-free run must return a failure value
+                base = base_of[" ".join(l.split()[:3] + ["0"] + l.split()[4:])]
+                pb, pc = base.split("|", 1)[0].split(" ; "), c.split("|", 1)[0].split(" ; ")
+                ops = l.split()[5].split(",") if l.split()[5] != "-" else []
+                if c.startswith("ERR stream") or c.startswith("ERR reader"):
+                    continue          # the constructor returned NULL: reported
+                for op, rb, rc_ in zip(ops, pb, pc):
+                    rb, rc_ = LB_RE.sub("", rb), LB_RE.sub("", rc_)
+                    if rb != rc_:
+                        v = rc_.split(" ev=")[0]
+                        # (end-of-archive for next_file = NULL, or the entries the reader re-presents once the archive
+                        # proper has ended: fake directories, deferred symlinks)
+                        okv = v.startswith("n:NULL") or (v.startswith("n:H") and v.endswith(" fake=1")) or v.startswith("r=0:") \
+                            or v in ("c=0", "cm=0", "x=0", "xm=0", "xf=0")
+                        if not okv:
+                            silent.append({"property": PID, "kind": "allocation-failure-not-reported", "case": l,
+                                           "failing_request": int(l.split()[3]), "op": op, "fault_free_result": rb[:400],
+                                           "result_with_failure": rc_[:400], "sig": "failinj-silent:" + op[0]})
+                        break
+        silent.sort(key=lambda v: len(v["case"]))
+        dist["failinj:not-reported"] = len(silent)
+        viol += silent[:6]
         viol.sort(key=lambda v: len(v["case"]))
         cov = {"evaluations": len(lines) + len(inj), "distinct_nontrivial": nontriv,
                "rule": "histories: every protocol-respecting op sequence over {n, r5, r100000, c, x} up to length %d x 12 small "
